@@ -30,8 +30,12 @@ def flat(schema, spec):
 
 
 def frame(schema, mtype, entries, chk_delta=0):
+    """chk_delta 1..255: a wrong value 000..255; 256/512/768: the right value plus a multiple of 256 (three digits, numerically wrong, congruent modulo 256)"""
     body = '35=%s\x01' % mtype + ''.join('%s=%s\x01' % (e['tag'], e['text']) for e in entries)
     s = '8=%s\x019=%d\x01' % (schema.begin, len(body)) + body
+    if chk_delta >= 256:
+        v = fixref.checksum(s) + chk_delta
+        return s + '10=%03d\x01' % (v if v <= 999 else fixref.checksum(s) + 256)
     return s + '10=%03d\x01' % ((fixref.checksum(s) + chk_delta) % 256)
 
 
@@ -109,7 +113,7 @@ class C04(CodecBase):
                 desc = 'leading zeros on tag %d: %r' % (e['tag'], e['text'])
                 nontrivial = True
         if dev == 'chk':
-            chk_delta = rnd.randint(1, 255)
+            chk_delta = rnd.choice([rnd.randint(1, 255), rnd.randint(1, 255), 256, 512, 768])
             conforming = False
             desc = 'checksum off by %d' % chk_delta
         elif dev == 'unknown':
